@@ -77,6 +77,13 @@ var c18Sections = map[string][]c18Variant{
 		{"load_balancer:\n  strategy: \"round_robin\"\n  websocket_pool:\n    enabled: true\n    max_idle: 0\n    max_active: 0\n    idle_timeout_seconds: 0\n", true, "pool zeros", false},
 		{"load_balancer:\n  strategy: \"round_robin\"\n  websocket_pool:\n    enabled: true\n    max_idle: 5\n    max_active: 5\n", true, "pool idle == active", false},
 		{"load_balancer:\n  strategy: \"round_robin\"\n  websocket_pool:\n    enabled: false\n    max_idle: -5\n", true, "pool disabled, values ignored", false},
+		{"load_balancer:\n  websocket_pool:\n    enabled: true\n    max_idle: 2\n    max_active: 4\n    idle_timeout_seconds: 30\n", true, "pool valid, strategy omitted", false},
+		{"load_balancer:\n  websocket_pool:\n    enabled: true\n    max_idle: -1\n", false, "pool negative max_idle, strategy omitted", false},
+		{"load_balancer:\n  websocket_pool:\n    enabled: true\n    max_active: -1\n", false, "pool negative max_active, strategy omitted", false},
+		{"load_balancer:\n  websocket_pool:\n    enabled: true\n    max_idle: 11\n    max_active: 10\n", false, "pool max_idle > max_active, strategy omitted", false},
+		{"load_balancer:\n  websocket_pool:\n    enabled: true\n    max_idle: 1\n    max_active: 10\n    idle_timeout_seconds: -1\n", false, "pool negative idle timeout, strategy omitted", false},
+		{"load_balancer:\n  strategy: \"ip_hash\"\n  websocket_pool:\n    enabled: true\n    max_idle: -1\n", false, "pool negative max_idle, ip_hash", false},
+		{"load_balancer:\n  strategy: \"least_connections\"\n  websocket_pool:\n    enabled: true\n    max_idle: 3\n    max_active: 2\n", false, "pool max_idle > max_active, least_connections", false},
 		{"load_balancer:\n  strategy: \"random\"\n", false, "unknown strategy", false},
 		{"load_balancer:\n  strategy: \"Round_Robin\"\n", false, "strategy wrong case", false},
 		{"load_balancer:\n  strategy: \"round_robin\"\n  websocket_pool:\n    enabled: true\n    max_idle: -1\n", false, "pool negative max_idle", false},
